@@ -523,9 +523,13 @@ pub fn do_navigate_command_string(mathml: Element, nav_command: &'static str) ->
         let mut count = count-1;
         loop {
             // debug!("  ... loop count={}", count);
-            let (_, nav_command) = nav_state.top().unwrap();
-            if (nav_command.starts_with("Move") || nav_command.starts_with("Zoom")) && nav_command != "MoveLastLocation" {
-                nav_state.pop();
+            match nav_state.top() {
+                None => break,      // a command that doesn't move (e.g., a toggle) was retried: nothing was pushed
+                Some( (_, nav_command) ) => {
+                    if (nav_command.starts_with("Move") || nav_command.starts_with("Zoom")) && nav_command != "MoveLastLocation" {
+                        nav_state.pop();
+                    }
+                }
             }
             if count == 0 {
                 break;
